@@ -87,6 +87,160 @@ def dedup : List IR → List IR
   | [] => []
   | t :: ts => if ts.any (beq t) then dedup ts else t :: dedup ts
 
+
+/-! ### the derived `Ord` of `Runtype` (runtype.rs: `#[derive(PartialOrd, Ord)]` on `RuntypeKind`) -/
+
+def variantIdx : IR → Nat
+  | .null => 0 | .undefined => 1 | .void => 2 | .boolean => 3 | .string => 4 | .number => 5 | .any => 6
+  | .anyArrayLike => 7 | .strFmt _ => 8 | .numFmt _ => 9 | .tpl _ => 10 | .object _ _ => 11 | .array _ => 12
+  | .tuple _ _ => 13 | .ref _ => 14 | .anyOf _ => 15 | .allOf _ => 16 | .const _ => 17 | .never => 18
+  | .stNot _ => 19 | .function => 20 | .date => 21 | .bigint => 22 | .typedArray _ => 23 | .map _ _ => 24
+  | .set _ => 25
+
+def thenCmp (a : Ordering) (b : Ordering) : Ordering := match a with | .eq => b | o => o
+
+def cmpStr (a b : String) : Ordering := if a < b then .lt else if a == b then .eq else .gt
+
+def cmpStrL : List String → List String → Ordering
+  | [], [] => .eq
+  | [], _ => .lt
+  | _, [] => .gt
+  | a :: as, b :: bs => thenCmp (cmpStr a b) (cmpStrL as bs)
+
+mutual
+def tplIdx : TplItem → Nat
+  | .string => 0 | .number => 1 | .boolean => 2 | .lit _ => 3 | .oneOf _ => 4
+def cmpTpl : TplItem → TplItem → Ordering
+  | .lit a, .lit b => cmpStr a b
+  | .oneOf a, .oneOf b => cmpTplL a b
+  | a, b => compare (tplIdx a) (tplIdx b)
+def cmpTplL : List TplItem → List TplItem → Ordering
+  | [], [] => .eq
+  | [], _ => .lt
+  | _, [] => .gt
+  | a :: as, b :: bs => thenCmp (cmpTpl a b) (cmpTplL as bs)
+end
+
+/-- `N { integral, fractional }` of a canonical decimal literal -/
+def numParts (c : String) : Int × Option Int :=
+  match c.splitOn "." with
+  | [i] => (i.toInt?.getD 0, none)
+  | [i, f] =>
+    let neg := c.startsWith "-"
+    let digits := (f ++ "000000000").take 9
+    let fr : Int := (digits.toString.toNat?.getD 0 : Nat)
+    (i.toInt?.getD 0, some (if neg then -fr else fr))
+  | _ => (0, none)
+
+def cmpConst : JsVal → JsVal → Ordering
+  | .bool a, .bool b => compare a.toNat b.toNat
+  | .bool _, _ => .lt
+  | _, .bool _ => .gt
+  | .num a, .num b =>
+    let (ia, fa) := numParts a
+    let (ib, fb) := numParts b
+    thenCmp (compare ia ib) (match fa, fb with
+      | none, none => .eq | none, some _ => .lt | some _, none => .gt | some x, some y => compare x y)
+  | _, _ => .eq
+
+def typedIdx (k : String) : Nat :=
+  (["Uint8Array", "Uint8ClampedArray", "Uint16Array", "Uint32Array", "Int8Array", "Int16Array", "Int32Array",
+    "Float32Array", "Float64Array", "BigInt64Array", "BigUint64Array"].idxOf? k).getD 99
+
+mutual
+def cmp : IR → IR → Ordering
+  | .strFmt a, .strFmt b => cmpStrL a b
+  | .numFmt a, .numFmt b => cmpStrL a b
+  | .tpl a, .tpl b => cmpTplL a b
+  | .object va ia, .object vb ib => thenCmp (cmpVs va vb) (cmpIx ia ib)
+  | .array a, .array b => cmp a b
+  | .tuple pa ra, .tuple pb rb => thenCmp (cmpL pa pb) (cmpO ra rb)
+  | .ref a, .ref b => cmpStr a b
+  | .anyOf a, .anyOf b => cmpL a b
+  | .allOf a, .allOf b => cmpL a b
+  | .const a, .const b => cmpConst a b
+  | .stNot a, .stNot b => cmp a b
+  | .typedArray a, .typedArray b => compare (typedIdx a) (typedIdx b)
+  | .map ka va, .map kb vb => thenCmp (cmp ka kb) (cmp va vb)
+  | .set a, .set b => cmp a b
+  | a, b => compare (variantIdx a) (variantIdx b)
+def cmpL : List IR → List IR → Ordering
+  | [], [] => .eq
+  | [], _ => .lt
+  | _, [] => .gt
+  | a :: as, b :: bs => thenCmp (cmp a b) (cmpL as bs)
+def cmpO : Option IR → Option IR → Ordering
+  | none, none => .eq
+  | none, some _ => .lt
+  | some _, none => .gt
+  | some a, some b => cmp a b
+def cmpVs : List (String × Bool × IR) → List (String × Bool × IR) → Ordering
+  | [], [] => .eq
+  | [], _ => .lt
+  | _, [] => .gt
+  | (ka, ra, ta) :: as, (kb, rb, tb) :: bs =>
+    -- (key, Optionality): Optional < Required
+    thenCmp (thenCmp (cmpStr ka kb) (thenCmp (compare ra.toNat rb.toNat) (cmp ta tb))) (cmpVs as bs)
+def cmpIx : Option (IR × Bool × IR) → Option (IR × Bool × IR) → Ordering
+  | none, none => .eq
+  | none, some _ => .lt
+  | some _, none => .gt
+  | some (ka, ra, va), some (kb, rb, vb) => thenCmp (cmp ka kb) (thenCmp (compare ra.toNat rb.toNat) (cmp va vb))
+end
+
+/-- `BTreeSet<Runtype>`: sorted by the derived order, duplicates removed -/
+def setOf (ts : List IR) : List IR :=
+  JsVal.sortBy (fun a b => cmp a b != .gt) (dedup ts)
+
+def debugTplItem : Nat → TplItem → String
+  | 0, _ => ""
+  | _+1, .string => "${string}"
+  | _+1, .number => "${number}"
+  | _+1, .boolean => "${boolean}"
+  | _+1, .lit v => v
+  | n+1, .oneOf vs => "(" ++ " | ".intercalate (vs.map fun v => match v with
+      | .lit s => "\"" ++ s ++ "\""
+      | other => "`" ++ debugTplItem n other ++ "`") ++ ")"
+
+def debugNum (c : String) : String := c
+
+mutual
+/-- `Runtype::debug_print` (runtype.rs:632-745) — only used as a sort key by the printer -/
+def debugPrint : IR → String
+  | .undefined => "undefined" | .null => "null" | .boolean => "boolean" | .void => "void" | .string => "string"
+  | .number => "number" | .any => "any" | .anyArrayLike => "Array<any>"
+  | .strFmt fs => (match fs with
+    | [] => "" | f :: rest => rest.foldl (fun acc r => "StringFormatExtends<" ++ acc ++ ", \"" ++ r ++ "\">") ("StringFormat<\"" ++ f ++ "\">"))
+  | .numFmt fs => (match fs with
+    | [] => "" | f :: rest => rest.foldl (fun acc r => "NumberFormatExtends<" ++ acc ++ ", \"" ++ r ++ "\">") ("NumberFormat<\"" ++ f ++ "\">"))
+  | .tpl [.lit s] => "\"" ++ s ++ "\""
+  | .tpl items => "`" ++ String.join (items.map (debugTplItem 20)) ++ "`"
+  | .const (.bool b) => if b then "true" else "false"
+  | .const (.num c) => debugNum c
+  | .const _ => "?"
+  | .date => "Date" | .bigint => "bigint" | .typedArray k => k | .never => "never"
+  | .stNot t => "Not<" ++ debugPrint t ++ ">"
+  | .function => "Function"
+  | .ref r => r
+  | .array t => "Array<" ++ debugPrint t ++ ">"
+  | .set t => "Set<" ++ debugPrint t ++ ">"
+  | .map k v => "Map<" ++ debugPrint k ++ ", " ++ debugPrint v ++ ">"
+  | .tuple pre rest => "[" ++ ", ".intercalate (debugPrintL pre ++ (match rest with | some r => ["..." ++ debugPrint r] | none => [])) ++ "]"
+  | .anyOf ts => "(" ++ " | ".intercalate (debugPrintL ts) ++ ")"
+  | .allOf ts => "(" ++ " & ".intercalate (debugPrintL ts) ++ ")"
+  | .object vs ix => "{ " ++ ", ".intercalate (debugPrintVs vs ++ (match ix with
+      | some (k, r, v) => ["[key" ++ (if r then "" else "?") ++ ": " ++ debugPrint k ++ "]: " ++ debugPrint v]
+      | none => [])) ++ " }"
+def debugPrintL : List IR → List String
+  | [] => []
+  | t :: ts => debugPrint t :: debugPrintL ts
+def debugPrintVs : List (String × Bool × IR) → List String
+  | [] => []
+  | (k, r, t) :: vs => ("\"" ++ k ++ "\"" ++ (if r then "" else "?") ++ ": " ++ debugPrint t) :: debugPrintVs vs
+end
+
+def sortByDebug (ts : List IR) : List IR := JsVal.sortBy (fun a b => debugPrint a ≤ debugPrint b) ts
+
 /-- `BTreeMap::insert`: sorted by key, later insert replaces -/
 def vsInsert (vs : List (String × Bool × IR)) (k : String) (r : Bool) (t : IR) : List (String × Bool × IR) :=
   let rest := vs.filter (fun p => p.1 != k)
@@ -118,7 +272,7 @@ def anyOf' (vs : List IR) : IR :=
   match vs with
   | [] => .never
   | [t] => t
-  | _ => .anyOf (dedup (flattenAnyOf 50 vs))
+  | _ => .anyOf (setOf (flattenAnyOf 50 vs))
 
 def optEq (a b : Bool × IR) : Bool := a.1 == b.1 && beq a.2 b.2
 
@@ -140,8 +294,8 @@ def allOf' (items : List IR) : IR :=
         else go more (acc ++ vs)
       | _ :: _ => some none
     match go items [] with
-    | some (some kvs) => if items.length > 1 then .object (vsOfList kvs) none else .allOf (dedup items)
-    | _ => .allOf (dedup items)
+    | some (some kvs) => if items.length > 1 then .object (vsOfList kvs) none else .allOf (setOf items)
+    | _ => .allOf (setOf items)
 
 def anyObject : IR := .object [] (some (.anyOf [.number, .string], true, .any))
 
@@ -250,11 +404,11 @@ def print (named : Named) : Nat → IR → RT
           | some (k, r, v) => [(pr k, if r then pr v else .optional (pr v))]
           | none => [])
     | .anyOf vs =>
-      let flat := dedup (vs.flatMap (extractUnion named 50))
+      let flat := setOf (vs.flatMap (extractUnion named 50))
       -- maybe_runtype_any_of_consts
       let isConst := fun (x : IR) => (singleStringConst x).isSome || (match x with | .const _ => true | _ => false)
       if flat.all isConst then
-        .consts (flat.map fun x => match singleStringConst x with
+        .consts ((sortByDebug flat).map fun x => match singleStringConst x with
           | some s => .str s
           | none => match x with | .const c => c | _ => .null)
       else
@@ -268,7 +422,7 @@ def print (named : Named) : Nat → IR → RT
             let distinct := values.foldl (fun (acc : List (Bool × IR)) v => if acc.any (optEq v) then acc else acc ++ [v]) []
             if distinct.length == 1 then none else
             if !(distinct.all (·.1)) then none else
-            let flatVals := dedup (distinct.flatMap fun v => extractUnion named 50 v.2)
+            let flatVals := setOf (distinct.flatMap fun v => extractUnion named 50 v.2)
             match flatVals.mapM singleStringConst with
             | some strs => some (disc, JsVal.sortStrings (strs.foldl (fun a s => if a.contains s then a else a ++ [s]) []))
             | none => none
@@ -279,7 +433,7 @@ def print (named : Named) : Nat → IR → RT
                 | some v => ((extractUnion named 50 v.2).filterMap singleStringConst).contains cur
                 | none => false).map (fun vs => IR.object vs none)
               (cur, pr (match cases with | [c] => c | _ => anyOf' cases))
-            .disc (flat.map pr) disc mapping mapping
+            .disc ((sortByDebug flat).map pr) disc mapping mapping
           | none => .anyOf (vs.map pr)
         | none => .anyOf (vs.map pr)
 
